@@ -148,7 +148,22 @@ func NewApp(regs []Reg) (app *App, errAt int, err interface{}) {
 // (http.NotFound) stays in place and Hit.NotFound is inferred by Serve from
 // its response.
 func NewAppOpt(regs []Reg, userNotFound bool) (app *App, errAt int, err interface{}) {
-	app = &App{F: flamego.NewWithLogger(io.Discard), defaultNotFound: !userNotFound}
+	if userNotFound {
+		return NewAppMode(regs, "user")
+	}
+	return NewAppMode(regs, "default")
+}
+
+// NewAppMode is NewApp with the not-found set-up spelled out: "user" (a marker
+// handler), "default" (http.NotFound stays; Hit.NotFound is inferred from its
+// response) or "empty" (NotFound() called with no handlers at all: the chain
+// consists of the application middleware only and Hit.NotFound stays false).
+func NewAppMode(regs []Reg, mode string) (app *App, errAt int, err interface{}) {
+	userNotFound := mode == "user"
+	app = &App{F: flamego.NewWithLogger(io.Discard), defaultNotFound: mode == "default"}
+	if mode == "empty" {
+		app.F.NotFound()
+	}
 	app.F.Use(func(c flamego.Context) {
 		if app.cur != nil {
 			app.cur.Chains++
